@@ -363,6 +363,29 @@ def ex_floats(rng, bits_list, singles):
     return ["RESET"] + lines(ents) + ["DATA", "DNEW 1"] + typed_decode(rng, 1, ents, peek=0.5, wrong=0.03)
 
 
+def ex_growth_boundary(rng, cap, delta, wide):
+    """the encoder's buffer starts at 256 bytes and doubles: put an item of every head width at every offset from
+    12 bytes before a growth point up to the point itself (one-byte items as padding), then one more item"""
+    pads = []
+    for _ in range(cap - delta):
+        pads.append(rng.choice([e_int("uint", rng.randrange(24)), e_bool(rng.random() < 0.5), e_int("negint", rng.randrange(24))]))
+    ents = pads + [wide, e_int("uint", 7)]
+    dec = ["DNEW 1"] + ["SKIP 1"] * len(pads) + typed_decode(rng, 1, ents[len(pads):], peek=0.5, wrong=0.0) + ["REM 1", "DFREE 1"]
+    return ["RESET"] + lines(ents) + ["DATA"] + dec
+
+
+def growth_boundary_family(rng, caps):
+    wides = [lambda: e_int("uint", 2 ** 64 - 1), lambda: e_int("negint", 2 ** 63), lambda: e_int("tag", 2 ** 40),
+             lambda: e_double(dbits(1.1)), lambda: e_double(dbits(1.5)), lambda: e_int("uint", 2 ** 32 - 1),
+             lambda: e_int("uint", 65535), lambda: e_int("uint", 255), lambda: e_str("text", 3, 5, 9)]
+    out = []
+    for cap in caps:
+        for delta in range(0, 13):
+            for w in wides:
+                out.append(ex_growth_boundary(rng, cap, delta, w()))
+    return out
+
+
 def ex_truncated(rng):
     """a container with fewer children than declared, skipped at the end of the data; encoder reset and reuse"""
     pre = [rand_leaf(rng) for _ in range(rng.randrange(3))]
@@ -484,6 +507,9 @@ def run(ctx):
         execs.append(ex_strings(rng, True))
     for _ in range(40 * mult):
         execs.append(ex_truncated(rng))
+    fam = growth_boundary_family(rng, [256] if not thorough else [256, 512, 1024])
+    execs += fam
+    ctx.extra["growth_boundary_family"] = len(fam)
     ctx.extra["driver_executions"] = len(execs) - ctx.extra["tlc_generated_scripts"]
     nontriv = ("array", "map", "iarray", "imap", "tag", "WF", "f32")
     for ex in execs:
